@@ -406,6 +406,7 @@ mod headers {
             addr_of_mut!((*cp).diff_stat_align_width).write(0);
             addr_of_mut!((*cp).line_buffer_size).write(0);
             addr_of_mut!((*cp).available_terminal_width).write(0);
+            addr_of_mut!((*cp).max_syntax_length).write(0);
         }
         let config: &'a Config = unsafe { &*cp };
         let sp = sm_mem.as_mut_ptr();
@@ -431,6 +432,12 @@ mod headers {
 
     // the part of `StateMachine::consume`'s handler chain that concerns file metadata lines
     fn feed(sm: &mut StateMachine, text: &'static str) {
+        unsafe {
+            // number of lines fed so far (scratch field max_syntax_length)
+            let p = sm.config as *const Config as *mut Config;
+            let v = addr_of!((*p).max_syntax_length).read();
+            addr_of_mut!((*p).max_syntax_length).write(v.wrapping_add(1));
+        }
         sm.line = text.to_string();
         sm.raw_line = text.to_string();
         let handled = sm.handle_diff_header_diff_line().unwrap()
@@ -477,6 +484,13 @@ mod headers {
                 let (sm, cp, cfg) = setup(&mut cfg_mem, &mut sm_mem);
                 let f: fn(&mut StateMachine, *mut Config, &Cfg) = $body;
                 f(sm, cp, &cfg);
+                if cfg.color_only {
+                    // C02: whatever the section looks like, every metadata line leads to exactly
+                    // one emission - re-emitted as a header line or passed through unchanged
+                    let (headers, _, unchanged, _) = read(cp);
+                    let fed = unsafe { addr_of!((*cp).max_syntax_length).read() };
+                    assert!(headers + unchanged == fed, "--color-only: one emission per input line, none dropped, none doubled");
+                }
                 kani::cover!(cfg.color_only, "--color-only");
                 kani::cover!(!cfg.color_only && cfg.handled, "file style handled by delta");
                 kani::cover!(!cfg.color_only && !cfg.handled, "raw file style without decoration");
@@ -607,6 +621,41 @@ mod headers {
             assert!(unchanged == 0, "no metadata line shown besides the headers");
         }
         kani::cover!(!cfg.color_only && cfg.handled && headers == 2, "both headers written");
+    });
+
+    // An empty added file whose lazily written header is flushed twice in a row, as happens when
+    // a `commit` line (which flushes) is followed by the next `diff` line (which flushes again
+    // before resetting): the header is written once.
+    header_harness!(c14_headers_empty_added_flushed_twice, |sm, cp, cfg| {
+        feed(sm, "diff --git a/nnnn b/nn");
+        feed(sm, "new file mode 100644");
+        feed(sm, "index 0000000..e69de29");
+        sm.handle_pending_line_with_diff_name().unwrap();
+        sm.handle_pending_line_with_diff_name().unwrap();
+        let (headers, paths, unchanged, _) = read(cp);
+        if !cfg.color_only && cfg.handled {
+            assert!(headers == 1, "the lazily written header is written once, however often the flush is requested");
+            assert!(paths == 0x92 && unchanged == 0, "from (/dev/null, its own name)");
+        }
+        kani::cover!(!cfg.color_only && cfg.handled && headers == 1, "header written");
+    });
+
+    // A binary file that is renamed AND modified: rename lines, then "Binary files ... differ".
+    // The header is written at the rename; the binary line must not cause a second one.
+    header_harness!(c14_headers_renamed_binary, |sm, cp, cfg| {
+        feed(sm, "diff --git a/o b/nw");
+        feed(sm, "similarity index 90%");
+        feed(sm, "rename from o");
+        feed(sm, "rename to nw");
+        feed(sm, "index 1111111..2222222 100644");
+        feed(sm, "Binary files a/o and b/nw differ");
+        sm.handle_pending_line_with_diff_name().unwrap();
+        let (headers, paths, _, _) = read(cp);
+        if !cfg.color_only && cfg.handled {
+            assert!(headers == 1, "renamed and modified binary file: exactly one header");
+            assert!(paths == 0x12, "built from the rename pair");
+        }
+        kani::cover!(!cfg.color_only && cfg.handled && headers == 1, "header written");
     });
 
     // A modified file followed by a section whose diff line names two DIFFERENT paths and that has
